@@ -241,6 +241,37 @@ def fault_battery():
             for k in (1, 4, 5):
                 b.append(Scenario(prog, S, layout=first, default_answer=[1, 2], layout_at={k: lay},
                                   note="first layout %s, %s at call %d" % (fname, dname, k)))
+    # fourth round.  (a) deviations of the same length in rows that expect nothing of the affected signals (X entries,
+    # outputs the header does not name): still an error, never a row that files a value under the wrong signal
+    progx = "A CLK Y Q\n0 0 X X\n1 0 X X\n1 C X 2\n0 0 1 X\n"
+    Sh = [("in", "A", 1, 0), ("in", "CLK", 1, 0), ("out", "Y", 8), ("out", "Q", 4), ("out", "R", 4)]
+    for k in (1, 2, 5, 6):
+        b.append(Scenario(progx, S, layout=["Y", "Q"], default_answer=[1, 2], layout_at={k: ["Q", "Y"]}, stop_on_err=False,
+                          note="swap at call %d in rows that expect X" % k))
+        b.append(Scenario(progx, S, layout=["Y", "Q"], default_answer=[1, 2], layout_at={k: ["?0", "Q"]}, stop_on_err=False,
+                          note="foreign signal instead of Y at call %d in rows that expect X" % k))
+        b.append(Scenario("A CLK Y\n0 0 1\n1 0 X\n1 C 1\n0 0 1\n", Sh, layout=["Y", "Q", "R"], default_answer=[1, 2, 3],
+                          layout_at={k: ["Y", "R", "Q"]}, stop_on_err=False,
+                          note="outputs without a column swapped at call %d" % k))
+        b.append(Scenario("A CLK Y\n0 0 1\n1 0 X\n1 C 1\n0 0 1\n", Sh, layout=["Y", "Q", "R"], default_answer=[1, 2, 3],
+                          layout_at={k: ["Y", "Q", "Q"]}, stop_on_err=False,
+                          note="output without a column reported twice at call %d" % k))
+    # (b) what later rows read after a deviating answer: values stay filed under the names the driver gave them
+    Sr = [("in", "A", 8, 0), ("out", "Y", 8), ("out", "Q", 8)]
+    b.append(Scenario("A Y Q\n1 X X\n(Q) X X\n(Y) X X\n(Q+Y) X X\n", Sr, layout=["Y", "Q"], default_answer=[10, 20],
+                      layout_at={1: ["Q", "Y"]}, answers={1: [7, 9], 2: [11, 21], 3: [12, 22]}, stop_on_err=False,
+                      expect={"row_inputs": [["7"], ["11"], ["34"]], "items": ["err", "row", "row", "row"]},
+                      note="reads after a swapped answer see each value under the name the driver reported it for"))
+    b.append(Scenario("A Y Q\n1 X X\n(Q) X X\n(Y) X X\n", Sr, layout=["Y", "Q"], default_answer=[10, 20],
+                      layout_at={2: ["Q", "Y"]}, answers={1: [5, 6], 2: [7, 9], 3: [11, 21]}, stop_on_err=False,
+                      expect={"row_inputs": [["1"], ["9"]], "items": ["row", "err", "row"]},
+                      note="a swapped answer in a later row"))
+    # (c) tests without any output-capable signal: the constructor still makes its call, faults surface where they happen
+    Sin = [("in", "A", 1, 0), ("in", "B", 4, 3)]
+    for k in (0, 1, 2):
+        b.append(Scenario("A B\n0 1\n1 2\n1 C\n" if False else "A B\n0 1\n1 2\n0 3\n", Sin, fail_at=[k],
+                          note="stimulus-only test (no outputs at all), fault at call %d" % k))
+    b.append(Scenario("A\n0\n1\n", [("in", "A", 1, 0)], fail_at=[0], note="single input, no outputs, fault in the constructor's call"))
     return b
 
 
@@ -253,6 +284,10 @@ def fault_judge_one(o, sc):
     w = attribution_judge_one(o, sc)
     if w:
         return "after a driver deviation: " + w
+    if sc.expect:
+        w = literal_judge_one(o, sc)
+        if w:
+            return w
     if sc.fail_at:
         k = sc.fail_at[0]
         if k == 0:
@@ -789,6 +824,16 @@ def malformed_battery():
         ("A B\n(random(1,2)) 1\n", "wrong number of arguments for random"),
         ("A B\n9223372036854775808 1\n", "literal does not fit in 64 bits"),
         ("A B\n0x10000000000000000 1\n", "hex literal does not fit"),
+        ("A B\n0b1%s 1\n" % ("0" * 64), "binary literal of 65 digits does not fit"),
+        ("A B\n1 0B1%s\n" % ("0" * 63), "binary literal 2^63 does not fit"),
+        ("A B\n1 (0b1%s)\n" % ("01" * 40), "long binary literal in an expression"),
+        ("A B\nlet v = 0b%s;\n1 1\n" % ("1" * 64), "binary literal of 64 ones in a let"),
+        ("A B\nloop(i, 0b1%s)\n1 1\nend loop\n" % ("0" * 70), "oversized binary loop bound"),
+        ("A B\n02000000000000000000000 1\n", "octal literal 2^64 does not fit"),
+        ("A B\n1 01000000000000000000000\n", "octal literal 2^63 does not fit"),
+        ("A B\n0X8000000000000000 1\n", "hex literal 2^63 does not fit"),
+        ("A B\n1 18446744073709551616\n", "decimal literal 2^64 does not fit"),
+        ("A B\nbits(0b1%s, 1) 1\n" % ("0" * 64), "oversized binary bits width"),
         ("A B\nbits(65,1)\n", "bits width 65"),
         ("A B\nbits(255,1)\n", "bits width 255"),
         ("A B\nbits(258,3)\n", "bits width 258 (low byte 2)"),
@@ -902,6 +947,16 @@ def bind_battery():
     b.append(sc("A Y V\nlet v = 1;\ndeclare V = v;\n0 X X\n", "err", "declare cannot see variables"))
     b.append(sc("A Y\n0 1\n", "err", "duplicate signal names", sigs=[("in", "A", 1, 0), ("out", "Y", 8), ("out", "Y", 4)]))
     b.append(sc("A Y\ndeclare Y = 1;\n0 1\n", "err", "virtual signal named like a real one"))
+    # fourth round: a header column claimed by two signals (the read-back column of a bidirectional signal and a pin of
+    # that very name) next to columns that name nothing: the number of bindings says nothing about which columns are bound
+    Sdup = [("bidir", "A", 4, "Z"), ("out", "A_out", 4), ("in", "B", 1, 0)]
+    b.append(sc("A A_out ZZ\n1 2 3\n", "err", "column bound twice next to a column that names no signal", sigs=Sdup))
+    b.append(sc("A_out ZZ\n2 3\n", "err", "doubly bound column and an unknown one, two columns", sigs=Sdup))
+    b.append(sc("B A A_out Q9\n0 1 2 3\n", "err", "doubly bound column, unknown column last", sigs=Sdup))
+    b.append(sc("Q9 B A_out\n3 0 2\n", "err", "unknown column first, doubly bound column last", sigs=Sdup))
+    b.append(sc("A A_out B\n1 2 0\n", "ok", "column bound twice, every column names a signal", sigs=Sdup, then_run=False))
+    Sdup2 = [("bidir", "A", 4, "Z"), ("in", "A_out", 4, 0), ("bidir", "C", 2, "Z"), ("in", "C_out", 2, 0)]
+    b.append(sc("A_out C_out U1 U2\n1 2 3 4\n", "err", "two doubly bound columns and two unknown ones", sigs=Sdup2))
     # third round: a declared (virtual) signal is not something an expression can read
     b.append(sc("A Y V\ndeclare V = Q + 1;\n(V) X X\n", "err", "a row entry reads a declared signal"))
     b.append(sc("A Y\ndeclare V = Q;\nlet t = V + 1;\n(t) X\n", "err", "a let reads a declared signal"))
